@@ -511,6 +511,14 @@ class StdioClient:
 
         except Exception as e:
             logger.debug(f"Error during stdio client shutdown: {e}")
+        finally:
+            # Never leave the child behind, even when shutdown itself is cancelled
+            if self.process and self.process.returncode is None:
+                try:
+                    with anyio.CancelScope(shield=True):
+                        await self._terminate_process()
+                except Exception as e:
+                    logger.debug(f"Error during process termination: {e}")
 
         return False
 
